@@ -13,14 +13,17 @@ import (
 
 // VfConn is a scripted net.Conn: reads deliver In (then EOF), writes are captured in Out.
 type VfConn struct {
-	In            []byte
-	pos           int
-	Out           bytes.Buffer
-	Closed        int
-	Calls         []string
-	ReadDeadlines []time.Time
-	Remote, Local net.Addr
-	WriteErrAfter int // fail writes once Out holds this many bytes (0 = never)
+	In              []byte
+	pos             int
+	Out             bytes.Buffer
+	Closed          int
+	Calls           []string
+	ReadDeadlines   []time.Time
+	Remote, Local   net.Addr
+	WriteErrAfter   int // fail writes once Out holds this many bytes (0 = never)
+	WriteClosed     int
+	OutAtCloseWrite int
+	Chunk           int // deliver at most this many bytes per Read (0 = all)
 }
 
 func (c *VfConn) note(s string) { c.Calls = append(c.Calls, s) }
@@ -32,6 +35,9 @@ func (c *VfConn) Read(p []byte) (int, error) {
 	}
 	if c.pos >= len(c.In) {
 		return 0, io.EOF
+	}
+	if c.Chunk > 0 && len(p) > c.Chunk {
+		p = p[:c.Chunk]
 	}
 	n := copy(p, c.In[c.pos:])
 	c.pos += n
@@ -48,7 +54,15 @@ func (c *VfConn) Write(p []byte) (int, error) {
 	}
 	return c.Out.Write(p)
 }
-func (c *VfConn) Close() error         { c.note("Close"); c.Closed++; return nil }
+func (c *VfConn) Close() error { c.note("Close"); c.Closed++; return nil }
+
+// CloseWrite makes VfConn a half-closable connection (like *net.TCPConn).
+func (c *VfConn) CloseWrite() error {
+	c.note("CloseWrite")
+	c.WriteClosed++
+	c.OutAtCloseWrite = c.Out.Len()
+	return nil
+}
 func (c *VfConn) LocalAddr() net.Addr  { c.note("LocalAddr"); return c.Local }
 func (c *VfConn) RemoteAddr() net.Addr { c.note("RemoteAddr"); return c.Remote }
 func (c *VfConn) SetDeadline(t time.Time) error {
